@@ -41,22 +41,20 @@ CONSTRAINT Exactness
 INVARIANT Emit
 INVARIANT Upper
 INVARIANT SolvedClosed
+INVARIANT CanProgress
+INVARIANT GapBound
+INVARIANT ReturnBound
+INVARIANT AbsorbingZero
 INVARIANT GapBoundLC
 INVARIANT ReturnBoundLC
-INVARIANT GapBoundModD3
-INVARIANT ReturnBoundModD3
-INVARIANT AbsZeroModD1
-INVARIANT CanProgressModD2
 INVARIANT InstancesOK
 """
-DESIGN_INVS = ["Upper", "SolvedClosed", "GapBoundLC", "ReturnBoundLC", "GapBoundModD3", "ReturnBoundModD3",
-               "AbsZeroModD1", "CanProgressModD2", "InstancesOK"]
+# every listed invariant must hold on the machine; a failure is a machinery failure (exit 2) unless it is
+# one of the statement's clauses AND the real code reproduces it in the replay of the emitted histories
+DESIGN_INVS = ["Upper", "SolvedClosed", "GapBoundLC", "ReturnBoundLC", "InstancesOK", "CanProgress", "AbsorbingZero"]
+CLAUSE_INVS = ["GapBound", "ReturnBound"]
 # trace / judge: no exactness cut (an inexact trace is reported as such), same invariants
 CFG_TJ = CFG_MC.replace("CONSTRAINT Exactness\n", "")
-
-SIG_D1 = "C04:LRTDP._tear_down_plan_on.initial_value:absorbing-initial-state-without-stored-value-reads-heuristic"
-SIG_D2 = "C04:LRTDP.lrtdp:zero-probability-entry-in-initial-support-never-labelled"
-SIG_D3 = "C04:LRTDP._tear_down_plan_on.policy:labelled-state-without-stored-value-uses-heuristic-lookahead"
 
 REPS = [
     dict(rep="quick", labels="int", alabels="int", explicit_list=False, dist="dict"),
@@ -184,8 +182,8 @@ def make_mc_instance(rng, fam, tier):
         m["zl"] = 1
         r_ = gen.reach(m)
         m["lst"] = [1 if (s in r_ or rng.random() < 0.5) else 0 for s in range(m["N"])]
-    # an initial support entry of probability zero (shape D2)
-    if rng.random() < 0.06:
+    # an initial support entry of probability zero (not an initial state: must not keep the trial loop alive)
+    if rng.random() < 0.15:
         z = [s for s in range(m["N"]) if m["p0"][s] == 0]
         if z:
             m["i0"][rng.choice(z)] = 1
@@ -349,12 +347,11 @@ def _proxy_classes():
 class Recorder:
     """Wraps a built MDP; hands out logging / scripted distributions; snapshots the planner's tables."""
 
-    def __init__(self, b, m, script=None, tail_init=False):
+    def __init__(self, b, m, script=None):
         self.b, self.m = b, m
         self.Dist, self.DD, L = _proxy_classes()
         self.Listener = type("L", (L,), {"rec": self})
         self.script = list(script) if script is not None else None
-        self.tail_init = tail_init
         self.pos = 0
         self.choices = []
         self.snaps = []
@@ -405,11 +402,6 @@ class Recorder:
             t = self.b.sidx(out) + 1
         else:
             if self.pos >= len(self.script):
-                if self.tail_init and key[0] == "init":
-                    # starvation replay: keep answering with a (labelled) initial state of positive probability
-                    t = next(s + 1 for s in range(self.m["N"]) if self.m["p0"][s] > 0)
-                    self.choices.append({"k": 0, "s": 0, "a": 0, "t": t, "tail": 1})
-                    return self.b.slabel[t - 1]
                 raise ScriptDiverged(f"script exhausted at {key[0]} sample {len(self.choices) + 1}")
             c = self.script[self.pos]
             if (c["k"], c["s"], c["a"]) != want:
@@ -423,7 +415,7 @@ class Recorder:
         return out
 
 
-def real_run(m, rep, *, script=None, seed=0, randomize=False, iterations=3000, tail_init=False, listener=True):
+def real_run(m, rep, *, script=None, seed=0, randomize=False, iterations=3000, listener=True):
     """Run msdm's LRTDP on the instance; returns a json-able description of everything observable."""
     from msdm.algorithms.lrtdp import LRTDP
     rng = random.Random(digest([m["P"], m["R"], rep]))
@@ -436,7 +428,7 @@ def real_run(m, rep, *, script=None, seed=0, randomize=False, iterations=3000, t
     margin = m["margin"] if "margin" in m else m["EPS"] / 2 ** m["KB"]
     try:
         b = build.build_mdp(m, rng=rng, **rep)
-        rec = Recorder(b, m, script=script, tail_init=tail_init)
+        rec = Recorder(b, m, script=script)
         L = m["L"] if m["L"] < 10 ** 6 else None
         planner = LRTDP(heuristic=lambda s: hv[b.sidx(s)], bellman_error_margin=margin, iterations=iterations,
                         randomize_action_order=randomize, max_trial_length=L,
@@ -463,7 +455,11 @@ def real_run(m, rep, *, script=None, seed=0, randomize=False, iterations=3000, t
     out["solved"] = sorted(b.sidx(s) for s, v in res.solved.items() if v)
     out["init_support"] = sorted(b.sidx(s) for s in rec.initial_state_dist().support)
     out["init_solved"] = {b.sidx(s): bool(res.solved[s]) for s in rec.initial_state_dist().support}
-    out["Q"] = {b.sidx(s): {b.aidx(a): float(q) for a, q in row.items()} for s, row in res.Q.items()}
+    try:
+        out["Q"] = {b.sidx(s): {b.aidx(a): float(q) for a, q in row.items()} for s, row in res.Q.items()}
+    except Exception as e:                       # noqa: BLE001 - a differently shaped Q table is not a clause of the statement
+        out["Q"] = {}
+        out["q_unreadable"] = f"{type(e).__name__}: {e}"[:200]
     out["initial_value"] = float(res.initial_value)
     out["orders"] = {b.sidx(s): [b.aidx(a) + 1 for a in o] for s, o in res.action_orders.items()}
     out["has_converged_attr"] = hasattr(res, "converged")
@@ -482,44 +478,14 @@ def real_run(m, rep, *, script=None, seed=0, randomize=False, iterations=3000, t
 # =============================================================================================
 # judging a real run on its own output (the only source of VIOLATIONs)
 # =============================================================================================
-def greedy_of_values(m, run):
-    """Label-consistent policy of the real run: first maximiser, in the order the run used, of the one-step
-    look-ahead of the reported values (heuristic where nothing is stored, 0 at absorbing successors)."""
-    g = m["GN"] / m["GD"]
-    hv = [x / 2 ** m["KB"] for x in m["h"]]
-    V = run["V"]
-    pol = {}
-    for s in range(m["N"]):
-        if m["abs"][s]:
-            continue
-        order = run["orders"].get(s) or m["aord"][s]
-        best, arg = None, None
-        for a1 in order:
-            a = a1 - 1
-            q = 0.0
-            for t in range(m["N"]):
-                p = m["P"][s][a][t]
-                if p:
-                    fut = 0.0 if m["abs"][t] else V.get(t, hv[t])
-                    q += p / m["PD"] * (m["R"][s][a][t] + g * fut)
-            if best is None or q > best:
-                best, arg = q, a
-        pol[s] = arg
-    return pol
-
-
 def judge_record(m, run, tag, oracle=1):
     rec = {k: m[k] for k in ("N", "K", "PD", "GN", "GD", "ID", "abs", "avail", "P", "R", "p0", "KB", "EPS", "L", "h",
                              "aord", "rand", "zl", "lst", "i0")}
     pol = [[1 if a in run["pol"].get(s, {}) else 0 for a in range(m["K"])] for s in range(m["N"])]
-    g = greedy_of_values(m, run)
-    pol2 = [[1 if g.get(s) == a else 0 for a in range(m["K"])] for s in range(m["N"])]
     for s in range(m["N"]):
         if not any(pol[s]):
             pol[s] = list(m["avail"][s])
-        if not any(pol2[s]):
-            pol2[s] = list(m["avail"][s])
-    rec.update(mode="judge", oracle=oracle, pol=pol, pol2=pol2, tag=tag, script=[], snaps=[])
+    rec.update(mode="judge", oracle=oracle, pol=pol, tag=tag, script=[], snaps=[])
     return rec
 
 
@@ -540,21 +506,20 @@ def judge_run(ctx, m, run, jr, case, *, pyx=False, orc=None):
         ok = False
         ctx.violation(sig, what, case)
 
-    starved_shape = any(m["i0"][s] and not m["p0"][s] for s in range(N))
     if run["status"] == "error":
         fail("C04:LRTDP.plan_on:raises", f"plan_on raised {run['why']}")
         return False
     # ---- clause 1: terminates with every initial state labelled
+    # (entries of probability 0 in the listed initial support are not initial states)
     unl = [s for s, v in run["init_solved"].items() if not v]
-    if run["capped"] or unl:
-        pos_unl = [s for s in unl if m["p0"][s] > 0]
-        if starved_shape and not pos_unl and all(m["p0"][s] == 0 for s in unl):
-            fail(SIG_D2, f"LRTDP ran out of its {run.get('iterations')} iterations: initial support entries {unl} of probability 0 "
-                         f"are never labelled although every initial state of positive probability is")
-        elif run["capped"]:
-            fail("C04:LRTDP.lrtdp:not-converged-within-iteration-cap", f"no convergence within {run.get('iterations')} trials; unlabelled initial states {unl}")
+    pos_unl = [s for s in unl if m["p0"][s] > 0]
+    if run["capped"] or pos_unl:
+        if run["capped"]:
+            fail("C04:LRTDP.lrtdp:not-converged-within-iteration-cap",
+                 f"no convergence within {run.get('iterations')} trials; unlabelled entries of the initial support {unl} "
+                 f"(of positive probability: {pos_unl})")
         else:
-            fail("C04:LRTDP.lrtdp:returned-with-unlabelled-initial-state", f"plan_on returned with initial states {unl} not labelled solved")
+            fail("C04:LRTDP.lrtdp:returned-with-unlabelled-initial-state", f"plan_on returned with initial states {pos_unl} not labelled solved")
         return False
     if jr is None:
         raise TLCFailure(f"no judge record for {case.get('tag')}")
@@ -579,11 +544,6 @@ def judge_run(ctx, m, run, jr, case, *, pyx=False, orc=None):
         raise TLCFailure(f"generator produced an inadmissible heuristic or improper MDP: {case.get('tag')}")
     if not all(fin(x) for x in vstar) or not all(fin(x) for x in steps) or not fin(vinit) or not fin(pinit):
         raise TLCFailure(f"non-finite oracle values on a proper MDP: {case.get('tag')}")
-    d3 = False
-    steps2 = [frac(x) for x in jr["steps2"]]
-    pinit2, ninit2 = frac(jr["pinit2"]), frac(jr["ninit2"])
-    gpol = greedy_of_values(m, run)
-    unstored_differs = [s for s in range(N) if not m["abs"][s] and s not in run["V"] and set(run["pol"][s]) != {gpol[s]}]
     # ---- clause 2: the values of the touched states never fall below the optimum
     for sn in run["snaps"] + [{"kind": "final", "keys": list(run["V"]), "vals": run["V"]}]:
         for s in sn["keys"]:
@@ -600,26 +560,19 @@ def judge_run(ctx, m, run, jr, case, *, pyx=False, orc=None):
             v = run["V"].get(s, hv[s])
             gapv = v - float(vstar[s])
             if gapv > margin * float(steps[s]) + 1e-9 * max(1.0, abs(v)):
-                if jr["fallback"] and unstored_differs and gapv <= margin * float(steps2[s]) + 1e-9 * max(1.0, abs(v)):
-                    d3 = True
-                else:
-                    fail("C04:LRTDP.plan_on:initial-state-value-outside-margin",
-                         f"V[{s}]={v} exceeds V*={float(vstar[s])} by {gapv} > margin*N^pi = {margin}*{float(steps[s])}")
+                fail("C04:LRTDP.plan_on:initial-state-value-outside-margin",
+                     f"V[{s}]={v} exceeds V*={float(vstar[s])} by {gapv} > margin*N^pi = {margin}*{float(steps[s])}")
     # ---- clause 4: exact return of the returned policy within margin * N^pi(p0) of the optimum
     if float(pinit - vinit) > 1e-9:
         raise TLCFailure(f"policy return {pinit} above the optimum {vinit}: oracle broken ({case.get('tag')})")
     if float(vinit - pinit) > margin * float(ninit) + 1e-9:
-        if jr["fallback"] and unstored_differs and float(vinit - pinit2) <= margin * float(ninit2) + 1e-9:
-            d3 = True
-        else:
-            fail("C04:LRTDP.plan_on:policy-return-outside-margin",
-                 f"exact return {float(pinit)} of the returned policy vs optimum {float(vinit)}: gap {float(vinit - pinit)} > "
-                 f"margin*N^pi = {margin}*{float(ninit)}")
-    if d3:
-        fail(SIG_D3, f"returned policy at labelled states {unstored_differs} (no stored value) is the heuristic look-ahead, not the greedy "
-                     f"action of the converged values: exact return {float(pinit)} vs optimum {float(vinit)}, margin*N^pi = "
-                     f"{margin}*{float(ninit)}; the greedy policy of the reported values returns {float(pinit2)}")
+        unstored = [s for s in range(N) if not m["abs"][s] and s not in run["V"]]
+        fail("C04:LRTDP.plan_on:policy-return-outside-margin",
+             f"exact return {float(pinit)} of the returned policy vs optimum {float(vinit)}: gap {float(vinit - pinit)} > "
+             f"margin*N^pi = {margin}*{float(ninit)} (returned policy {run['pol']}, states without a stored value {unstored})")
     # ---- clause 5: absorbing states are worth 0 in the reported values and the initial value
+    if run.get("q_unreadable"):
+        ctx.drift("reported-Q-shape", {"case": case.get("tag"), "why": run["q_unreadable"]})
     for s, v in run["V"].items():
         if m["abs"][s] and v != 0:
             fail("C04:LRTDP.res.V:absorbing-state-stored-nonzero", f"stored V[{s}]={v} at an absorbing state")
@@ -645,14 +598,9 @@ def judge_run(ctx, m, run, jr, case, *, pyx=False, orc=None):
     ev0 = sum(m["p0"][s] / m["ID"] * run["V"].get(s, hv[s]) for s in range(N) if m["p0"][s] > 0 and not m["abs"][s])
     tol = 1e-9 * max(1.0, abs(ev0))
     if abs(run["initial_value"] - ev0) > tol:
-        evh = ev0 + sum(m["p0"][s] / m["ID"] * run["V_read_abs_init"].get(s, 0.0) for s in range(N) if m["p0"][s] > 0 and m["abs"][s])
-        bad_abs = [s for s in range(N) if m["p0"][s] > 0 and m["abs"][s] and s not in run["V"] and hv[s] != 0]
-        if bad_abs and abs(run["initial_value"] - evh) <= tol:
-            fail(SIG_D1, f"initial_value={run['initial_value']} but sum p0*V with absorbing states worth 0 is {ev0}: absorbing initial states "
-                         f"{bad_abs} were labelled as successors, have no stored value and read the heuristic {[hv[s] for s in bad_abs]}")
-        else:
-            fail("C04:LRTDP._tear_down_plan_on.initial_value:not-expectation-of-values",
-                 f"initial_value={run['initial_value']} but sum p0*V (absorbing states worth 0) = {ev0}")
+        fail("C04:LRTDP._tear_down_plan_on.initial_value:not-expectation-of-values-with-absorbing-states-worth-zero",
+             f"initial_value={run['initial_value']} but sum p0*V over the initial states (absorbing ones worth 0) = {ev0}; "
+             f"absorbing initial states read {run['V_read_abs_init']}")
     if not run["has_converged_attr"]:
         ctx.count("result_without_converged_attribute")
     return ok
@@ -759,42 +707,39 @@ def pipeline_mc(ctx, batch, reps, *, inject=None):
     """MC over the batch + replay of every emitted history + judgement of every real run."""
     for i, m in enumerate(batch):
         m["tag"] = f"mc{i + 1}"
-    res = run_tlc(ctx.workdir / "mc", MODULE, CFG_MC, files={"batch.json": batch}, env={"BATCH_FILE": "batch.json"},
-                  coverage=(ctx.tier == "thorough"))
+    # (-coverage is not used: with the recursive labelling operator it slows TLC down by orders of magnitude;
+    #  per-action counts are taken from the emitted histories instead)
+    res = run_tlc(ctx.workdir / "mc", MODULE, CFG_MC, files={"batch.json": batch}, env={"BATCH_FILE": "batch.json"})
     ctx.add_tlc(res, "mc: every trial history of the LRTDP machine over the batch, invariants, terminal clauses")
     check_design(res, "mc")
+    # a clause of the statement broken on the machine: only the real code can turn it into a verdict
+    clause_broken = sorted({v for v in res.violated if v in CLAUSE_INVS})
+    nviol_before = len(ctx.violations)
     runs = []
-    nstarved = {}
     orcs = {r["iid"]: r for r in res.records if r.get("vstar")}
     for r in res.records:
         m = batch[r["iid"] - 1]
         rep = reps[(r["iid"] - 1) % len(reps)]
-        if r["pc"] == "starved":
-            ctx.count("model_starved_states")
-            nstarved[r["iid"]] = nstarved.get(r["iid"], 0) + 1
-            if m["rand"] or nstarved[r["iid"]] > 2:
-                continue
-            ntr = sum(1 for c in r["ch"] if c["k"] == 0)
-            run = real_run(m, rep, script=r["ch"], seed=0, iterations=ntr + 40, tail_init=True, randomize=False)
-            run["iterations"] = ntr + 40
-            ctx.evaluations += 1
-            runs.append((m, r, run, rep))
-            continue
         if r["pc"] != "done":
             continue
+        cov = ctx.extra.setdefault("machine_actions_in_emitted_histories", {"StartTrial": 0, "TrialStep": 0, "Finish": 0,
+                                                                          "histories_with_failed_CheckStep": 0,
+                                                                          "histories_with_successful_CheckStep": 0})
+        cov["StartTrial"] += sum(1 for c in r["ch"] if c["k"] == 0)
+        cov["TrialStep"] += sum(1 for c in r["ch"] if c["k"] == 1)
+        cov["Finish"] += 1
+        cov["histories_with_failed_CheckStep"] += r["fail"]
+        cov["histories_with_successful_CheckStep"] += r["succ"]
         t = r["term"]
-        for k in ("gap2", "ret2"):
-            if t[k] == "bad" or (t[k[:3]] == "bad" and not t["fallback"]):
-                ctx.count("model_predicts_clause_broken_for_label_consistent_policy(non-monotone heuristic)")
         if not r["mono"]:
             ctx.count("terminal_states_with_non_monotone_heuristic")
+        if t["fallback"]:
+            ctx.count("terminal_states_whose_returned_policy_uses_the_fallback_at_some_state")
         for k in ("gap", "ret"):
             if t[k] == "bad":
-                ctx.count(f"model_predicts_{k}_clause_broken")
+                ctx.count(f"model_level_{k}_clause_broken")
             if t[k] == "unk":
                 ctx.skip(f"terminal {k} clause not computable in 30 bits (model level)")
-        if not t["abszero"]:
-            ctx.count("model_predicts_absorbing_zero_clause_broken")
         run = replay_history(m, r, rep)
         ctx.evaluations += 1
         runs.append((m, r, run, rep))
@@ -808,7 +753,7 @@ def pipeline_mc(ctx, batch, reps, *, inject=None):
     jby = run_tj(ctx, jrecs, "judge: exact evaluation of the policies returned by the replayed runs")
     for k, (m, r, run, rep) in enumerate(runs):
         case = {"m": m, "rep": rep, "kind": "A", "script": r["ch"], "tag": f"{m['tag']}:{digest(r['ch'])}",
-                "seed": run.get("seed", 0), "starved": r["pc"] == "starved"}
+                "seed": run.get("seed", 0)}
         if run["status"] == "diverged":
             if run.get("seed_search_failed") or m["rand"]:
                 ctx.skip("randomised action order: no seed among 96 reproduces the emitted orders")
@@ -818,9 +763,7 @@ def pipeline_mc(ctx, batch, reps, *, inject=None):
         if run.get("seed_search_failed"):
             ctx.skip("randomised action order: no seed among 96 reproduces the emitted orders")
             continue
-        good = judge_run(ctx, m, run, jby.get(f"j{k}"), case, pyx=(k % 7 == 0), orc=orcs[r["iid"]])
-        if r["pc"] == "starved":
-            continue
+        judge_run(ctx, m, run, jby.get(f"j{k}"), case, pyx=(k % 7 == 0), orc=orcs[r["iid"]])
         why = same_final(m, run, r)
         if why is None:
             ctx.validated += 1
@@ -831,6 +774,9 @@ def pipeline_mc(ctx, batch, reps, *, inject=None):
         if len(ctx.samples) < 2 and r["fail"] and r["succ"]:
             ctx.sample({"pipeline": "A", "instance": {k_: m[k_] for k_ in ("N", "K", "PD", "GN", "GD", "abs", "avail", "P", "R", "p0", "EPS", "L", "h", "aord", "KB")},
                         "history": r["ch"], "machine_V": r["v"], "real_V": run["V"], "solved": run["solved"], "rep": rep})
+    if clause_broken and len(ctx.violations) == nviol_before:
+        raise TLCFailure(f"{clause_broken} violated on the machine but no replayed run of the real code breaks a clause: "
+                         f"the specification no longer describes msdm\n" + (res.traces[0][:4000] if res.traces else ""))
     return res
 
 
@@ -913,18 +859,18 @@ def make_free_cases(rng, n, tier):
             r_ = gen.reach(m)
             m["lst"] = [1 if (s in r_ or rng.random() < 0.5) else 0 for s in range(m["N"])]
         its = 4000
-        if rng.random() < 0.04:
+        if rng.random() < 0.12:
             z = [s for s in range(m["N"]) if m["p0"][s] == 0]
             if z:
                 m["i0"][rng.choice(z)] = 1
-                its = 300
         cases.append({"m": m, "rep": dict(REPS[rng.randrange(len(REPS))]), "seed": rng.randrange(10 ** 6),
                       "randomize": rng.random() < 0.5, "iterations": its, "exact": exact})
     return cases
 
 
-# a member of the first family on which TLC found the return clause broken (shape D3); kept in every first
-# batch so that the model-level prediction and its reproduction on the real code do not depend on the seed
+# corner instances kept in every first batch, independent of the seed: the member of the first family on
+# which TLC originally found the return clause broken (a state labelled without ever being updated gets its
+# action from the fallback of the returned policy; repaired in msdm by 9a59871)
 CORNER_D3 = {"N": 4, "K": 3, "PD": 2, "GN": 1, "GD": 1, "ID": 4, "abs": [0, 0, 1, 0],
              "avail": [[1, 1, 1], [0, 1, 1], [1, 1, 1], [0, 1, 1]],
              "P": [[[0, 1, 1, 0], [0, 0, 0, 2], [0, 1, 1, 0]], [[0, 1, 1, 0], [0, 0, 2, 0], [2, 0, 0, 0]],
@@ -967,7 +913,7 @@ def run(ctx):
         "float comparisons of the judged clauses use 1e-9 relative slack on top of margin * N^pi",
         "termination of a free run is judged against an iteration cap of 4000 trials (instances have <= 5 states)",
     ]
-    n_mc, n_free = (200, 500) if ctx.tier == "quick" else (900, 4000)
+    n_mc, n_free = (350, 1000) if ctx.tier == "quick" else (2000, 8000)
     chunk = 300
     left = n_mc
     while left > 0:
@@ -984,12 +930,8 @@ def replay(ctx, case):
     m = case["m"]
     if case["kind"] == "A":
         ntr = sum(1 for c in case["script"] if c["k"] == 0)
-        if case.get("starved"):
-            run = real_run(m, case["rep"], script=case["script"], seed=0, iterations=ntr + 40, tail_init=True)
-            run["iterations"] = ntr + 40
-        else:
-            run = real_run(m, case["rep"], script=case["script"], seed=case.get("seed", 0), randomize=bool(m["rand"]),
-                           iterations=ntr + 3)
+        run = real_run(m, case["rep"], script=case["script"], seed=case.get("seed", 0), randomize=bool(m["rand"]),
+                       iterations=ntr + 3)
     else:
         run = real_run(m, case["rep"], seed=case["seed"], randomize=case["randomize"], iterations=case["iterations"])
         run["iterations"] = case["iterations"]
@@ -1009,11 +951,6 @@ def selftest(ctx):
     (B) drop one recorded sample of one free run; both must be detected."""
     rng = random.Random(11)
     batch = make_mc_batch(rng, 20, "quick")
-    for m in batch:
-        m["i0"] = [1 if p > 0 else 0 for p in m["p0"]]       # no D2 shapes in the self-test
-        for s in range(m["N"]):
-            if m["abs"][s]:
-                m["h"][s] = 0                                   # no D1 shapes either
     reps = [dict(REPS[i % len(REPS)]) for i in range(len(batch))]
     hit = {}
 
@@ -1029,7 +966,7 @@ def selftest(ctx):
     ok_a = len(ctx.violations) > before_v and len(ctx.drifts) > before_d
     print(f"  (selftest) A: corrupted value in {hit.get('tag')}: violations +{len(ctx.violations) - before_v}, drifts +{len(ctx.drifts) - before_d}")
     # (B) drop one recorded sample
-    cases = [c for c in make_free_cases(rng, 40, "quick") if c["exact"] and not any(c["m"]["i0"][s] and not c["m"]["p0"][s] for s in range(c["m"]["N"]))]
+    cases = [c for c in make_free_cases(rng, 40, "quick") if c["exact"]]
     runs = []
     for c in cases:
         runs.append(real_run(c["m"], c["rep"], seed=c["seed"], randomize=c["randomize"], iterations=c["iterations"]))
